@@ -14,6 +14,7 @@ import Driver.C03Mon
 import Driver.C18Mon
 import Driver.C20Mon
 import Driver.C19Mon
+import Driver.C16Mon
 open Kv
 
 structure MState where
@@ -22,6 +23,7 @@ structure MState where
   c08 : C08.MonState := {}
   c17 : Drv.C17.MonSt := {}
   c03 : Drv.C03.MonSt := {}
+  c16 : C16.MonState := {}
   deriving Inhabited
 
 /-- monitor-only driver: imports nothing generated, so it builds whatever the source looks like -/
@@ -43,6 +45,7 @@ def dispatchMon (st : MState) (prop : String) (l : Line) : MState × String :=
   | "C03" => let (s, r) := Drv.C03.stepMon st.c03 l; ({ st with c03 := s }, r)
   | "C18" => (st, Drv.C18.stepMon l)
   | "C19" => (st, Drv.C19.stepMon l)
+  | "C16" => let (s, r) := Drv.C16.stepMon st.c16 l; ({ st with c16 := s }, r)
   | _ => (st, "bad-op")
 
 def main : IO Unit := driverMain dispatchMon {}
